@@ -39,7 +39,13 @@ SIMPLE_CFG_STEPS = [
 ]
 
 
+def src_of(case):
+    return case.get("cfg") or case.get("tc") or case.get("hist") or case.get("tw")
+
+
 def cfg_class(cfg):
+    if isinstance(cfg, dict) and "w" in cfg and "cfg" in cfg:
+        return "twins:" + "".join(str(x) for x in cfg["w"])
     if isinstance(cfg, list):
         return "tc:" + cfg[0]
     if isinstance(cfg, dict) and "units" in cfg:
@@ -156,6 +162,19 @@ class ByteChanSpec(Spec):
                     return {"hist": {"cfg": cfg, "units": units}}
             except W.WorkloadError:
                 pass
+        if 0.36 <= r < 0.42:
+            # "twin" sequences in one stream: one configuration, mid-grey
+            # pictures, one thing changed per sequence
+            cfg = dict(self.pool[rng.randrange(len(self.pool))], nseq=1, extras=None, mix=None)
+            cfg["npics"] = min(cfg["npics"], 2) if cfg["pcm"] == 0 else 2
+            ws = [0] + [rng.randrange(1, 8) for _ in range(rng.choice([1, 1, 2]))]
+            if rng.random() < 0.5:
+                ws.append(0)
+            try:
+                W.encode_twinseq(cfg, ws)
+                return {"tw": {"cfg": cfg, "w": ws}}
+            except W.WorkloadError:
+                pass
         if r < 0.36:
             # a stream from the real decoder test-case generators
             codec = rng.choice(W.TC_CODECS)
@@ -177,6 +196,8 @@ class ByteChanSpec(Spec):
             if misframed:
                 raise W.WorkloadError("history breaks the composition rule")
             return data
+        if "tw" in case:
+            return W.encode_twinseq(case["tw"]["cfg"], case["tw"]["w"])
         if "tc" in case:
             streams = W.testcase_streams(case["tc"][0])
             if case["tc"][1] >= len(streams) or streams[case["tc"][1]][0] != case["tc"][2]:
@@ -226,7 +247,7 @@ class ByteChanSpec(Spec):
             nf = 0
         k = rng.randrange(2, 9)
         enabled = rng.sample(self.fault_kinds, min(k, len(self.fault_kinds)))
-        fmap = F.field_map(data) if ("cfg" in case or "tc" in case or "hist" in case) else None
+        fmap = F.field_map(data) if ("cfg" in case or "tc" in case or "hist" in case or "tw" in case) else None
         case["faults"] = F.gen_faults(rng, fmap, len(data), nf, enabled)
         return case
 
@@ -260,7 +281,7 @@ class ByteChanSpec(Spec):
         stats["sweep:%s" % sw["k"]] += 1
         stats["sweep:%s:single-fault-executions" % sw["k"]] += len(digests)
         events = [("sweep", sw["k"], sw["lo"], sw["hi"], digests)]
-        key = "%s|sweep:%s" % (cfg_class(case.get("cfg") or case.get("tc") or case.get("hist")), sw["k"])
+        key = "%s|sweep:%s" % (cfg_class(src_of(case)), sw["k"])
         if first is not None:
             f, out = first
             return Outcome(VIOLATION, events, sig=out.sig, detail="(single-fault sweep, first failing fault %r)\n%s" % (f, out.detail), stats=stats, nontrivial=True, key=key, ticks=ticks)
@@ -296,6 +317,10 @@ class ByteChanSpec(Spec):
         if "hist" in case:
             for us in shrink_list(case["hist"]["units"]):
                 yield dict(case, hist=dict(case["hist"], units=us))
+        if "tw" in case and len(case["tw"]["w"]) > 1:
+            for ws in shrink_list(case["tw"]["w"]):
+                if ws:
+                    yield dict(case, tw=dict(case["tw"], w=ws))
         if "cfg" in case:
             for k, v in SIMPLE_CFG_STEPS:
                 if case["cfg"].get(k) != v:
@@ -309,7 +334,7 @@ class ByteChanSpec(Spec):
     def execute(self, case):
         if "sweep" in case:
             return self.execute_sweep(case)
-        events = [("case", repr(sorted(case.get("cfg", {}).items())), case.get("raw"), case.get("tc"), repr(case.get("hist")), repr(case["faults"]))]
+        events = [("case", repr(sorted(case.get("cfg", {}).items())), case.get("raw"), case.get("tc"), repr(case.get("hist")), repr(case.get("tw")), repr(case["faults"]))]
         stats = Counter()
         try:
             clean = self.source_bytes(case)
@@ -384,7 +409,7 @@ class C02(ByteChanSpec):
         vname = res.verdict if res.exc is None or res.verdict == "accept" else "%s:%s" % (res.verdict, type(res.exc).__name__)
         events.append(("validator", vname, res.reads, len(res.pics)))
         stats["verdict:" + vname] += 1
-        key = "%s|%s|%s" % (cfg_class(case.get("cfg") or case.get("tc") or case.get("hist")), self.kinds_of(case), vname)
+        key = "%s|%s|%s" % (cfg_class(src_of(case)), self.kinds_of(case), vname)
         if res.verdict == "oos":
             stats["discard:out-of-scope"] += 1
             return Outcome(DISCARD, events, stats=stats, key=None, ticks=res.reads)
@@ -449,6 +474,13 @@ SERDES_KINDS = F.ALL_KINDS + ["f_wrap_unit"] * 3 + ["f_block_cut"] * 4 + ["f_coe
 
 class C06(ByteChanSpec):
     prop = "C06"
+
+    def generate(self, rng, idx, tier):
+        case = ByteChanSpec.generate(self, rng, idx, tier)
+        if rng.random() < 0.08 and "sweep" not in case:
+            case["overlap"] = rng.randrange(1, 1 << 16)
+        return case
+
     title = "Deserialising then serialising any parseable stream reproduces its bytes"
     quick_runs = 24000
     thorough_runs = 800000
@@ -465,7 +497,7 @@ class C06(ByteChanSpec):
     def judge(self, case, clean, data, changed, events, stats):
         d = R.run_deserialiser(data)
         events.append(("deser", d.verdict, type(d.exc).__name__ if d.exc else None, d.reads))
-        key = "%s|%s|%s" % (cfg_class(case.get("cfg") or case.get("tc") or case.get("hist")), self.kinds_of(case), d.verdict)
+        key = "%s|%s|%s" % (cfg_class(src_of(case)), self.kinds_of(case), d.verdict)
         if d.verdict == "oos":
             stats["discard:out-of-scope"] += 1
             return Outcome(DISCARD, events, stats=stats, ticks=d.reads)
@@ -496,6 +528,19 @@ class C06(ByteChanSpec):
                 % (first, len(data), len(out), data[max(0, first - 4) : first + 8].hex(), out[max(0, first - 4) : first + 8].hex()),
                 stats=stats, nontrivial=changed, key=key, ticks=d.reads,
             )
+        if case.get("overlap"):
+            # a second stream's reader is open while this one is parsed (and
+            # vice versa): both must read exactly what they read on their own
+            other = W.encode_stream(dict(W.minimal_config(), pic_seed=case["overlap"], extras=[[1, "aux", 9, case["overlap"] & 0xFF]]))
+            solo_other, _e = R.run_plain_deserialiser(other)
+            got_a, got_b = R.run_two_open_deserialisers(data, other)
+            stats["two-open-readers"] += 1
+            if got_a != d.context or (solo_other is not None and got_b != solo_other):
+                return Outcome(
+                    VIOLATION, events, sig="C06/readers-not-independent",
+                    detail="with two BitstreamReaders open at once (each on its own file) the %s stream deserialises differently than on its own" % ("first" if got_a != d.context else "second"),
+                    stats=stats, nontrivial=True, key=key, ticks=d.reads,
+                )
         ctx2, exc2 = R.run_plain_deserialiser(out)
         if exc2 is not None:
             return Outcome(
@@ -679,7 +724,7 @@ class AcceptedSpec(ByteChanSpec):
             stats["accepted_after_fault"] += 1
             for f in case["faults"]:
                 stats["accepted_after:" + f.get("kind", f["k"])] += 1
-        key = "%s|%s|pics=%d" % (cfg_class(case.get("cfg") or case.get("tc") or case.get("hist")), self.kinds_of(case), len(v.pics))
+        key = "%s|%s|pics=%d" % (cfg_class(src_of(case)), self.kinds_of(case), len(v.pics))
         return self.judge_accepted(case, data, changed, v, events, stats, key)
 
     def judge_rejected(self, case, data, changed, v, events, stats):
